@@ -45,7 +45,7 @@ theorem live_inv {s : St} {c : Nat} {x : Ctx} (h : s.live c = .ok x) : (s.ctx c)
 def relRec (x : Ctx) : Ctx :=
   if x.ref = 0 then x
   else if x.ref = 1 then
-    { x with ref := 0, nRel := x.nRel + 1, flagClosed := true, fdOpen := false,
+    { x with ref := 0, nRel := x.nRel + 1, oRel := 0, flagClosed := true, fdOpen := false,
              nFdc := if x.fdOpen then x.nFdc + 1 else x.nFdc, mem := .freed, nFree := x.nFree + 1 }
   else { x with ref := x.ref - 1 }
 
@@ -65,8 +65,8 @@ theorem releaseCtx_err (s : St) (c : Nat) (h : (s.ctx c).mem ≠ .live) : ∃ e,
   cases hm : (s.ctx c).mem <;> simp_all [bind, Except.bind]
 
 theorem onClose_spec (s : St) (c : Nat) (h : (s.ctx c).mem = .live) :
-    onClose s c = .ok (s.set c (relRec { s.ctx c with nCls := (s.ctx c).nCls + 1 })) := by
-  have h2 : ((s.set c { s.ctx c with nCls := (s.ctx c).nCls + 1 }).ctx c).mem = .live := by simp [h]
+    onClose s c = .ok (s.set c (relRec { s.ctx c with nCls := (s.ctx c).nCls + 1, oCls := (s.ctx c).ref })) := by
+  have h2 : ((s.set c { s.ctx c with nCls := (s.ctx c).nCls + 1, oCls := (s.ctx c).ref }).ctx c).mem = .live := by simp [h]
   simp only [onClose, cbClose, live_ok h, bind, Except.bind, pure, Except.pure]
   rw [releaseCtx_spec _ _ h2]
   simp
